@@ -45,8 +45,8 @@ ANCHORS = [
 
 def plan(tier):
     if tier == "quick":
-        return {"shards": 16, "schemas": 180, "timeout": 300, "mirror": True}
-    return {"shards": 16, "schemas": 12000, "timeout": 3000, "mirror": True}
+        return {"shards": 16, "schemas": 180, "timeout": 900, "mirror": True}
+    return {"shards": 16, "schemas": 12000, "timeout": 7200, "mirror": True}
 
 
 def has_falsy_keyword(node):
